@@ -35,6 +35,7 @@ from harness.common import TranslateError, REPO
 OPERATOR_PY = 'odl/operator/operator.py'
 DEFAULT_OPS_PY = 'odl/operator/default_ops.py'
 NPY_TENSORS_PY = 'odl/space/npy_tensors.py'
+PROXIMAL_PY = 'odl/solvers/nonsmooth/proximal_operators.py'
 ANCHORED = ['odl/operator/operator.py', 'odl/operator/default_ops.py', 'odl/operator/tensor_ops.py',
             'odl/operator/pspace_ops.py', 'odl/discr/diff_ops.py', 'odl/discr/discr_ops.py',
             'odl/solvers/functional/default_functionals.py', 'odl/solvers/functional/functional.py']
@@ -68,6 +69,11 @@ CLASSES = [
     ('MultiplyOperator', DEFAULT_OPS_PY, 'MultiplyOperator',
      dict(vecs=['multiplicand'],
           assume={'not self.__range_is_field': True, 'self.__domain_is_field': False})),
+    # proximal_l2(space, lam, g=None)(sigma) in the branch sigma*lam >= ||x||*(1+eps)  (step >= 1):
+    # the scalar prelude computing `step` is skipped, the branch is fixed by `assume`
+    ('ProximalL2_bigstep', PROXIMAL_PY, 'proximal_l2.ProximalL2',
+     dict(assume={'g is None': True, 'step < 1.0': False},
+          skip_scalar=['dtype', 'eps', 'x_norm', 'step'])),
 ]
 
 
@@ -80,6 +86,7 @@ class Ctx(object):
         self.pars = cfg.get('pars', [])
         self.owns = cfg.get('owns', [])
         self.assume = cfg.get('assume', {})
+        self.skip_scalar = cfg.get('skip_scalar', [])
         self.locals = {}      # element-valued local name -> tmp index
         self.slocals = {}     # scalar-valued local name -> index
 
@@ -115,10 +122,27 @@ def own_not_none(t):
     return None
 
 
+def mentions_out(node):
+    return any(isinstance(n, ast.Name) and n.id == 'out' for n in ast.walk(node))
+
+
+def skippable(cx, s):
+    """Scalar prelude: NAME = <expression without out> for the listed scalar names, or an `if`
+    made only of such assignments (its test must not mention out either)."""
+    if (isinstance(s, ast.Assign) and len(s.targets) == 1 and isinstance(s.targets[0], ast.Name)
+            and s.targets[0].id in cx.skip_scalar and not mentions_out(s.value)):
+        return True
+    if isinstance(s, ast.If) and not mentions_out(s.test) and s.body:
+        return all(skippable(cx, t) for t in s.body + s.orelse)
+    return False
+
+
 def split_modes(cx, stmts):
     """Resolve `if out is None` and assumed conditions; return (oop_stmts, ip_stmts) as flat lists."""
     oop, ip = [], []
     for s in stmts:
+        if cx.skip_scalar and skippable(cx, s) and not (isinstance(s, ast.If) and ast.unparse(s.test) in cx.assume):
+            continue
         if isinstance(s, ast.If) and is_out_is_none(s.test):
             a_o, a_i = split_modes(cx, s.body)
             b_o, b_i = split_modes(cx, s.orelse)
@@ -365,11 +389,21 @@ def dispatch_kind(fn, src):
 
 
 def find_call(tree, clsname):
-    for n in tree.body:
-        if isinstance(n, ast.ClassDef) and n.name == clsname:
-            for m in n.body:
-                if isinstance(m, ast.FunctionDef) and m.name == '_call':
-                    return m
+    """clsname may be dotted: function.Class for classes defined inside a factory function."""
+    node = tree
+    for part in clsname.split('.'):
+        nxt = None
+        for n in ast.walk(node) if node is not tree else node.body:
+            if isinstance(n, (ast.ClassDef, ast.FunctionDef)) and n.name == part and n is not node:
+                nxt = n
+                break
+        if nxt is None:
+            return None
+        node = nxt
+    if isinstance(node, ast.ClassDef):
+        for m in node.body:
+            if isinstance(m, ast.FunctionDef) and m.name == '_call':
+                return m
     return None
 
 
@@ -406,8 +440,8 @@ def all_kinds(repo=None):
 def translate(repo=None):
     repo = repo or REPO
     trees = {}
-    out = ['(* GENERATED by translate/call_bodies.py from %s, %s, %s -- do not edit *)'
-           % (OPERATOR_PY, DEFAULT_OPS_PY, NPY_TENSORS_PY),
+    out = ['(* GENERATED by translate/call_bodies.py from %s, %s, %s, %s -- do not edit *)'
+           % (OPERATOR_PY, DEFAULT_OPS_PY, NPY_TENSORS_PY, PROXIMAL_PY),
            'From Coq Require Import ZArith QArith List String.',
            'From Verif Require Import C03.Syntax.',
            'Import ListNotations.',
